@@ -110,20 +110,20 @@ theorem getMatch_mono {chk : Constraint → Bytes → Bool} {pc : Bool} :
         · rename_i hb2; rw [if_neg hb2] at h; cases h
     · obtain ⟨vs', hv, hreq, _, hrec⟩ := getMatch_param_step h hp
       have ih := getMatch_mono rest _ _ vs' hrec
-      have hle := findParamLen_le det seg
+      have hle := paramLen_le det seg rest
       unfold getMatch
       simp only [hp, Bool.not_true, Bool.false_eq_true, if_false]
-      have h1 : (!seg.isOptional && findParamLen det seg == 0) = false := by
+      have h1 : (!seg.isOptional && paramLen det seg rest == 0) = false := by
         rcases hreq with ho | hne
         · simp [ho]
         · simp [hne]
       simp only [h1, Bool.false_eq_true, if_false]
-      have hrec' : (if det.length > 0 then getMatch (fun _ _ => true) rest (det.drop (findParamLen det seg)) (path.drop (findParamLen det seg)) pc
+      have hrec' : (if det.length > 0 then getMatch (fun _ _ => true) rest (det.drop (paramLen det seg rest)) (path.drop (paramLen det seg rest)) pc
                    else getMatch (fun _ _ => true) rest det path pc) =
-                  getMatch (fun _ _ => true) rest (det.drop (findParamLen det seg)) (path.drop (findParamLen det seg)) pc := by
+                  getMatch (fun _ _ => true) rest (det.drop (paramLen det seg rest)) (path.drop (paramLen det seg rest)) pc := by
         split
         · rfl
-        · have : findParamLen det seg = 0 := by omega
+        · have : paramLen det seg rest = 0 := by omega
           rw [this]; simp
       rw [hrec', ih, hv]
       simp
